@@ -293,7 +293,8 @@ theorem optLoop_spec (p : Bytes) (fuel : Nat) (s : Sector) (e : Nat) (he : s.edn
       exact ⟨by omega, he⟩
 
 theorem parseOpt_spec {p : Bytes} {s : Sector} (h : s.offset ≤ p.length) :
-    (parseOpt p s).Returns ∧ ∀ s', parseOpt p s = .ok s' → s.offset + 10 ≤ s'.offset ∧ s'.offset ≤ p.length := by
+    (parseOpt p s).Returns ∧ ∀ s', parseOpt p s = .ok s' →
+      s'.offset = s.offset + 10 + get16 p (s.offset + 8) ∧ s'.offset ≤ p.length := by
   unfold parseOpt
   simp only [u8Load_eq h, be16Load_eq h, incrementOffset_eq h, failIf]
   consts
